@@ -597,9 +597,10 @@ fn node_announcement_inner(v: &NodeAnnouncement, g: &mut Gen) -> Vec<InnerCase> 
 			let mut val = v.clone();
 			let mut addrs = Vec::new();
 			if after {
-				addrs.push(g.addr(g.rng.gen_range(0..5), 1));
+				{ let t = g.rng.gen_range(0..5); addrs.push(g.addr(t, 1)); }
 			}
-			let last = g.addr(ty, if g.rng.gen_bool(0.5) { 1 } else { 2 });
+			let lv = if g.rng.gen_bool(0.5) { 1 } else { 2 };
+			let last = g.addr(ty, lv);
 			addrs.push(last.clone());
 			val.contents.addresses = addrs;
 			val.contents.excess_address_data = vec![];
@@ -622,7 +623,7 @@ fn node_announcement_inner(v: &NodeAnnouncement, g: &mut Gen) -> Vec<InnerCase> 
 			// know: retained verbatim as excess address data (canonical)
 			let k = g.rng.gen_range(1..16usize);
 			let mut x = vec![if g.rng.gen_bool(0.3) { 0u8 } else { g.rng.gen_range(6..=255) }];
-			x.extend_from_slice(&g.bytes(k + g.rng.gen_range(0..5)));
+			{ let n = k + g.rng.gen_range(0..5); x.extend_from_slice(&g.bytes(n)); }
 			val.contents.excess_data = x;
 			let base = val.encode();
 			for d in [1i64, 2, k as i64, k as i64 + 1] {
@@ -632,10 +633,11 @@ fn node_announcement_inner(v: &NodeAnnouncement, g: &mut Gen) -> Vec<InnerCase> 
 			ic(format!("addrlen+{} beyond the message ({})", k + 40, tag), "overrun", &base, with_u16(&base, off, l + k as i64 + 40), &mut out);
 
 			// (4) addrlen lengthened over part of a further (known-type) address
-			let next = g.addr(g.rng.gen_range(0..5), 1);
+			let nt = g.rng.gen_range(0..5);
+			let next = g.addr(nt, 1);
 			let nlen = addr_wire_len(&next) as i64;
 			let mut x = next.encode();
-			x.extend_from_slice(&g.bytes(g.rng.gen_range(0..6)));
+			{ let n = g.rng.gen_range(0..6); x.extend_from_slice(&g.bytes(n)); }
 			val.contents.excess_data = x;
 			let base = val.encode();
 			for d in [1i64, 2, nlen - 1] {
@@ -652,7 +654,7 @@ fn node_announcement_inner(v: &NodeAnnouncement, g: &mut Gen) -> Vec<InnerCase> 
 		let mut val = v.clone();
 		let mut addrs = Vec::new();
 		if after {
-			addrs.push(g.addr(g.rng.gen_range(0..4), 1));
+			{ let t = g.rng.gen_range(0..4); addrs.push(g.addr(t, 1)); }
 		}
 		let n = g.rng.gen_range(1..40);
 		addrs.push(SocketAddress::Hostname { hostname: g.hostname(n), port: 0x6162 });
